@@ -21,9 +21,10 @@ import (
 	"pgregory.net/rapid"
 
 	"verifharness/hx"
+	"verifharness/wire"
 )
 
-func TestMain(m *testing.M) { hx.Main(m) }
+func TestMain(m *testing.M) { wire.Init(true); hx.Main(m) }
 
 type capture struct {
 	req *http.Request
@@ -327,7 +328,7 @@ func TestC08Direct(t *testing.T) {
 		}
 		tg := tbl[""][0].Targets[0]
 		cap := &capture{}
-		p := &proxy.HTTPProxy{Config: s.cfg, Transport: cap, Lookup: func(*http.Request) *route.Target { return tg }}
+		p := &proxy.HTTPProxy{Stats: wire.Stats(), Config: s.cfg, Transport: cap, Lookup: func(*http.Request) *route.Target { return tg }}
 		req := &http.Request{
 			Method: "GET", Proto: "HTTP/1.1", ProtoMajor: 1, ProtoMinor: 1,
 			URL:        &url.URL{Path: "/api/x"},
@@ -422,7 +423,7 @@ func TestC08Loopback(t *testing.T) {
 		cur.Lock()
 		s, tg := cur.s, cur.tg
 		cur.Unlock()
-		p := &proxy.HTTPProxy{Config: s.cfg, Transport: &http.Transport{DisableCompression: true, DisableKeepAlives: true}, Lookup: func(*http.Request) *route.Target { return tg }}
+		p := &proxy.HTTPProxy{Stats: wire.Stats(), Config: s.cfg, Transport: &http.Transport{DisableCompression: true, DisableKeepAlives: true}, Lookup: func(*http.Request) *route.Target { return tg }}
 		p.ServeHTTP(w, r)
 	})
 	plain := httptest.NewServer(handler)
